@@ -132,14 +132,23 @@ pub fn run_scenario(sc: &MScenario, replay: Option<Vec<Decision>>, trace: bool) 
         }
         v
     });
-    // one by one: a panicking drop must not meet a second one while unwinding (that would abort)
-    for obj in leftovers {
-        if std::panic::catch_unwind(std::panic::AssertUnwindSafe(move || drop(obj))).is_err() {
-            with_w(|w| w.cnt.probe("teardown_drop_panicked"));
+    if lock_stuck() {
+        // nothing that touches the pool can be run any more: leak what is left
+        std::mem::forget(leftovers);
+        std::mem::forget(with_w(|w| w.pool.take()));
+        if violation.is_none() && diverged.is_none() {
+            violation = Some(engine::violation(&sc.profile, "deadlock", "the pool's lock is held forever".into()));
         }
+    } else {
+        // one by one: a panicking drop must not meet a second one while unwinding (that would abort)
+        for obj in leftovers {
+            if std::panic::catch_unwind(std::panic::AssertUnwindSafe(move || drop(obj))).is_err() {
+                with_w(|w| w.cnt.probe("teardown_drop_panicked"));
+            }
+        }
+        let pool = with_w(|w| w.pool.take());
+        let _ = std::panic::catch_unwind(std::panic::AssertUnwindSafe(move || drop(pool)));
     }
-    let pool = with_w(|w| w.pool.take());
-    let _ = std::panic::catch_unwind(std::panic::AssertUnwindSafe(move || drop(pool)));
     let w = remove_world().expect("world");
     let nt = nontrivial(&w, &stats);
     let mut faults = w.cnt.faults.clone();
@@ -245,6 +254,11 @@ fn drain(sim: &mut Sim, h: &mut MHandle, stop_on_violation: bool) -> Result<(), 
     Err(None)
 }
 
+/// The pool's lock is held although every actor is done or parked outside the pool.
+fn lock_stuck() -> bool {
+    with_w(|w| w.pool.is_some() && moracle::snapshot(w).is_none())
+}
+
 fn epilogue(sc: &MScenario, sim: &mut Sim, h: &mut MHandle) -> Option<Violation> {
     match drain(sim, h, true) {
         Ok(()) => {}
@@ -262,6 +276,13 @@ fn epilogue(sc: &MScenario, sim: &mut Sim, h: &mut MHandle) -> Option<Violation>
     }
     if let Some(v) = with_w(|w| w.pending_violation.take()) {
         return Some(v);
+    }
+    if lock_stuck() {
+        return Some(crate::engine::violation(
+            &sc.profile,
+            "deadlock",
+            "no thread is inside the pool any more but its lock is still held: a thread holds it forever or died holding it".into(),
+        ));
     }
     if sc.drop_handles_first {
         // C06(e): every pool handle goes away while objects are still checked out; the objects
